@@ -195,9 +195,22 @@ static void pic_check_all(struct pic *except)
             pic_check(&P[i], "sibling");
 }
 
+/* formats of the code base that are not in uref_pic_flow_formats[]: macropixels
+ * that are not a power of two (v210 as allocated by the blackmagic / v210
+ * modules: 6 pixels in 16 octets; a 3-pixel 4-octet packing of 10-bit samples) */
+UREF_PIC_FLOW_FORMAT(vh_v210, 6, { 1, 1, 16, "u10y10v10y10u10y10v10y10u10y10v10y10", 128 });
+UREF_PIC_FLOW_FORMAT(vh_y10x3, 3, { 1, 1, 4, "y10y10y10", 32 });
+UREF_PIC_FLOW_FORMAT(vh_y10x3_420, 3, { 1, 1, 4, "y10y10y10", 32 }, { 2, 2, 4, "u10u10u10", 32 }, { 2, 2, 4, "v10v10v10", 32 });
+static const struct uref_pic_flow_format *const vh_local_formats[] = {
+    &uref_pic_flow_format_vh_v210, &uref_pic_flow_format_vh_y10x3, &uref_pic_flow_format_vh_y10x3_420,
+};
+
 static void pic_setup_format(void)
 {
-    fmt = uref_pic_flow_formats[vh_below(R, UBASE_ARRAY_SIZE(uref_pic_flow_formats))];
+    if (vh_chance(R, 1, 8))
+        fmt = vh_local_formats[vh_below(R, UBASE_ARRAY_SIZE(vh_local_formats))];
+    else
+        fmt = uref_pic_flow_formats[vh_below(R, UBASE_ARRAY_SIZE(uref_pic_flow_formats))];
     mp = fmt->macropixel;
     np = fmt->nb_planes;
     if (np > MAXP) vh_skip_case();
@@ -399,8 +412,13 @@ static void pic_op_resize(void)
         case 6: if (hgran > 1) hskip += 1; break;                                                               /* bad granularity */
         case 7: if (vgran > 1) vskip += 1; break;
         case 8: if (hgran > 1 && nh > 0) nh += 1; break;
+        case 9: if (hgran > 1) { hskip = -hgran * (int)(1 + vh_below(R, 3)) + 1 + (int)vh_below(R, hgran - 1); nh = -1; extend = true; } break; /* leftwards, bad granularity */
+        case 10: if (vgran > 1) { vskip = -vgran * (int)(1 + vh_below(R, 3)) + 1 + (int)vh_below(R, vgran - 1); nv = -1; extend = true; } break;
         default: break;
     }
+    /* one call in four goes to the manager directly, without the inline
+     * pre-check of ubuf_pic_resize() */
+    bool raw = vh_chance(R, 1, 4);
     OP("resize(p%d,%d,%d,%d,%d)", (int)(h - P), hskip, vskip, nh, nv);
     int enh = nh == -1 ? h->hs - hskip : nh, env = nv == -1 ? h->vs - vskip : nv;
     bool gran_ok = hskip % hgran == 0 && vskip % vgran == 0 && enh % hgran == 0 && env % vgran == 0;
@@ -408,8 +426,10 @@ static void pic_op_resize(void)
         h->ax + hskip >= -hprep && h->ax + hskip + enh <= H0 + happ &&
         h->ay + vskip >= -vprep && h->ay + vskip + env <= V0 + vapp;
     bool pure_crop = hskip >= 0 && vskip >= 0 && hskip + enh <= h->hs && vskip + env <= h->vs && enh > 0 && env > 0;
-    int err = ubuf_pic_resize(h->ubuf, hskip, vskip, nh, nv);
+    int err = raw ? ubuf_control(h->ubuf, UBUF_RESIZE_PICTURE, hskip, vskip, nh, nv)
+                  : ubuf_pic_resize(h->ubuf, hskip, vskip, nh, nv);
     VH_COUNT("pic.resize");
+    if (raw) VH_COUNT("pic.resize_raw_control");
     if (ubase_check(err)) {
         if (!gran_ok)
             vh_violation("c19:resize-accepted:granularity", "resize(%d,%d,%d,%d) accepted on %dx%d %s (granularity %dx%d)", hskip, vskip, nh, nv, h->hs, h->vs, fmt->name, hgran, vgran);
@@ -424,6 +444,10 @@ static void pic_op_resize(void)
         VH_COUNT("pic.resize_refused");
         if (gran_ok && pure_crop)
             vh_violation("c19:crop-refused", "crop resize(%d,%d,%d,%d) refused (%d) on %dx%d", hskip, vskip, nh, nv, err, h->hs, h->vs);
+        if (gran_ok && inside && !pure_crop) {
+            VH_COUNT("pic.extend_refused_inside");
+            vh_violation("c19:extension-refused", "resize(%d,%d,%d,%d) into the allocated margins refused (%d) on %dx%d at (%d,%d) %s, margins h%d/%d v%d/%d of %dx%d", hskip, vskip, nh, nv, err, h->hs, h->vs, h->ax, h->ay, fmt->name, hprep, happ, vprep, vapp, H0, V0);
+        }
         pic_check(h, "self");
     }
 }
